@@ -216,6 +216,8 @@ C_IREP = dict(zip(IREP, ["IrLinear", "IrLogarithmic", "IrBoolean", "IrPureNumber
                          "IrMacAddress"]))
 C_FREP = dict(zip(FREP, ["FrLinear", "FrLogarithmic", "FrPureNumber"]))
 C_DNOT = dict(zip(DNOT, ["DnAutomatic", "DnFixed", "DnScientific"]))
+SLOPE = ["Increasing", "Decreasing", "Varying", "Automatic"]
+C_SLOPE = dict(zip(SLOPE, ["SlIncreasing", "SlDecreasing", "SlVarying", "SlAutomatic"]))
 C_NS = dict(zip(NS, ["NsStandard", "NsCustom"]))
 C_MP = dict(zip(MP, ["MpHigh", "MpMid", "MpLow"]))
 C_SIGN = dict(zip(SIGN, ["SgSigned", "SgUnsigned"]))
@@ -984,7 +986,8 @@ class Group(Node):
         return out
 
 
-# ---- kinds that carry formulas and have no Gallina model (implementation vs expectation only) ---------------
+# ---- Converter / IntConverter / SwissKnife: three-way like every other kind; the expression trees of their formulas
+# are compared with hand-written expectations (formula::parse is property C05) ---------------------------------------
 class FormulaNode(Node):
     """Converter / IntConverter / SwissKnife: kind, tag and the field list differ, the shape is shared"""
 
@@ -1015,7 +1018,21 @@ class FormulaNode(Node):
         return self.wrap(self.attr, s)
 
     def coq(self):
-        return None
+        pairs = lambda f, l: cl(lambda p: "(%s, %s)" % (cs(p[0]), f(p[1])), l)
+        common = "%s %s %s %s %s %s" % (self.attr.coq(), self.eb.coq(), co(clit, self.streamable), pairs(cs, self.vars),
+                                       pairs(clit, self.consts), pairs(cs, self.exprs))
+        if self.TAG == "SwissKnife":
+            return "(SnSwissKnife (mkFswiss Src %s %s %s %s %s %s))" % (
+                common, cs(self.fs[0]), co(cs, self.unit), co(lambda x: C_FREP[x], self.repr),
+                co(lambda x: C_DNOT[x], self.dnot), co(clit, self.dprec))
+        if self.TAG == "IntConverter":
+            return "(SnIntConverter (mkIconv Src %s %s %s %s %s %s %s))" % (
+                common, cs(self.fs[0]), cs(self.fs[1]), cs(self.pvalue), co(cs, self.unit),
+                co(lambda x: C_IREP[x], self.repr), co(lambda x: C_SLOPE[x], self.slope))
+        return "(SnConverter (mkFconv Src %s %s %s %s %s %s %s %s %s %s))" % (
+            common, cs(self.fs[0]), cs(self.fs[1]), cs(self.pvalue), co(cs, self.unit), co(lambda x: C_FREP[x], self.repr),
+            co(lambda x: C_DNOT[x], self.dnot), co(clit, self.dprec), co(lambda x: C_SLOPE[x], self.slope),
+            co(clit, self.is_linear))
 
     def chunks(self, ctx):
         kind = {"Converter": 14, "IntConverter": 15, "SwissKnife": 16}[self.TAG]
@@ -1096,7 +1113,7 @@ class Doc:
     def _has(self, n):
         if isinstance(n, Group):
             return all(self._has(m) for m in n.members)
-        return not isinstance(n, FormulaNode)
+        return True        # every kind has a Gallina model (formula texts are opaque there)
 
     def term(self):
         return "run_doc true (Elem T_RegisterDescription %s (map render %s))" % (
@@ -1348,6 +1365,8 @@ class Gen:
     def addr(self):
         r = self.r
         k = r.below(6)
+        if k == 3 and getattr(self, "no_formula", False):
+            k = 0
         if k <= 2:
             return Addr("addr", self.imm(self.il))
         if k == 3:
@@ -1468,7 +1487,8 @@ class Gen:
                     self.opt(self.bl))
 
     def k_group(self):
-        return Group([self.node([k for k in KINDS if k != "group"] + ["group"] * 0)
+        skip = ("group", "formula", "iswiss") if getattr(self, "no_formula", False) else ("group",)
+        return Group([self.node([k for k in KINDS if k not in skip])
                       for _ in range(self.r.choice([0, 1, 2, 3]))])
 
     def k_formula(self):
@@ -1494,4 +1514,4 @@ class Gen:
 
 
 KINDS = ["node", "category", "integer", "intreg", "masked", "struct", "boolean", "command", "enumeration", "float",
-         "floatreg", "string", "stringreg", "register", "iswiss", "port", "group"]
+         "floatreg", "string", "stringreg", "register", "iswiss", "port", "group", "formula"]
